@@ -108,7 +108,7 @@ package raft
 
 //@ pure EntSame(e *entry) bool = *e == old(*e)
 //@ func (*stateMachine).onApply
-//@   props C03 C19
+//@   props C03 C04 C19
 //@   nilable t.neHead
 //@   requires fsm.FSM != nil
 //@   requires [PA-ch.apply-view] ApplyLogWF(t.log) && t.log.gprev <= fsm.index && fsm.index <= t.log.glast
@@ -120,7 +120,8 @@ package raft
 //@   ensures [C03.apply-contiguous] fsm.index == t.log.glast
 //@   ensures [C19.applied-monotone] fsm.index >= old(fsm.index)
 //@   ensures [C03.apply-exactly-once] gupd == old(gupd) + (t.log.gnupd[old(Front(t)) - 1] - t.log.gnupd[old(fsm.index)]) + fqUpd
-//@   ensures [C03.apply-term] (fsm.index == old(fsm.index) ==> fsm.term == old(fsm.term)) && (fsm.index > old(fsm.index) ==> (fsm.index < old(Front(t)) && fsm.term == t.log.geterm[fsm.index]) || TermFromChain(fsm))
+// (C04: (fsm.index, fsm.term) becomes the label of the next snapshot, and the label term is what a leader sends as prevLogTerm when prevLogIndex is the snapshot index)
+//@   ensures [C03+C04.apply-term] (fsm.index == old(fsm.index) ==> fsm.term == old(fsm.term)) && (fsm.index > old(fsm.index) ==> (fsm.index < old(Front(t)) && fsm.term == t.log.geterm[fsm.index]) || TermFromChain(fsm))
 //@   ensures [C07.reply-once] forall(x, fq[x] ==> RepliedUpTo(x, nil))
 //@   loop 1 invariant fsm.index >= old(fsm.index) && fsm.index + 1 <= front
 //@   loop 1 invariant forall(x, !isfresh(x) ==> EntSame(x))
@@ -475,8 +476,14 @@ package raft
 // PrevIndex at such a boundary and never touches the entries above it.
 //@ view (*log.Log).Contains
 //@   ensures result0 == (i > l.gprev && i <= l.glast)
+// CanLTE is one scan of the segment list, so on an unchanged log it is monotone in its argument
+// (T-abs.canlte-monotone): gcan(log, prev, last, i) names its value for a log object in the state identified by
+// (prev, last). Its only two calls are adjacent in onSnapshotTaken, with no log operation between them.
+//@ ghost func gcan(uint64, uint64, uint64, uint64) uint64
+//@ axiom [T-abs.canlte-monotone] forall(o, p, la, i, j, i <= j ==> gcan(o, p, la, i) <= gcan(o, p, la, j))
 //@ view (*log.Log).CanLTE
 //@   ensures result0 >= l.gprev && result0 <= l.glast && (result0 > l.gprev ==> result0 <= i)
+//@   ensures result0 == gcan(ref(l), l.gprev, l.glast, i)
 //@ view (*log.Log).RemoveLTE
 //@   modifies l.gprev
 //@   ensures l.gprev >= old(l.gprev) && l.gprev <= l.glast && (l.gprev > old(l.gprev) ==> l.gprev <= i)
@@ -516,6 +523,8 @@ package raft
 //@   requires RaftWF(r) && r.log != nil && r.ldr != nil && r.ldr.Raft == r && ReplsOK(r.ldr) && t.req.task != nil && r.snaps != nil
 //@   requires r.log.glast == r.lastLogIndex
 //@   requires [PA-ch.snap-taken] t.err == nil ==> t.meta.index <= r.snaps.index
+// (leader state: conjunct of LeaderBase, the invariant every leader handler assumes and re-establishes)
+//@   requires r.state == Leader ==> r.log.gprev <= r.ldr.removeLTE
 //@   modifies r.snapTakenCh, r.storage.log.gprev, r.ldr.removeLTE, t.req.task.result, t.req.task.greplied
 //@   ensures [C09.single-snapshot] r.snapTakenCh == nil
 //@   ensures [C15.reply-once] t.req.task.greplied == old(t.req.task.greplied) + 1
@@ -526,7 +535,9 @@ package raft
 //@   ensures [C09.compact-bound] r.log.gprev > old(r.log.gprev) && r.state == Leader ==> forall(k, has(r.ldr.repls, k) ==> r.log.gprev <= ReplMatch(r.ldr.repls[k]))
 //@   ensures [C09.compact-bound] r.ldr.removeLTE != old(r.ldr.removeLTE) ==> r.ldr.removeLTE <= t.meta.index && r.ldr.removeLTE >= r.log.gprev && r.ldr.removeLTE <= r.lastLogIndex
 //@   ensures [C09.compact-bound] r.ldr.removeLTE != old(r.ldr.removeLTE) && r.state == Leader ==> forall(k, has(r.ldr.repls, k) && Reachable(r.ldr.repls[k]) ==> r.ldr.removeLTE <= ReplMatch(r.ldr.repls[k]))
-//@   loop 1 invariant nowCompact <= t.meta.index && canCompact <= t.meta.index
+// the view the leader hands to its replications (ViewAt(removeLTE, lastLogIndex), part of LeaderBase) stays inside the log
+//@   ensures [C15+C09.leader-view-stays-valid] r.state == Leader ==> r.log.gprev <= r.ldr.removeLTE
+//@   loop 1 invariant nowCompact <= t.meta.index && canCompact <= t.meta.index && nowCompact <= canCompact
 //@   loop 1 invariant forall(k, visited(k) ==> nowCompact <= ReplMatch(r.ldr.repls[k]))
 //@   loop 1 invariant forall(k, visited(k) && Reachable(r.ldr.repls[k]) ==> canCompact <= ReplMatch(r.ldr.repls[k]))
 
